@@ -111,7 +111,9 @@ def gen_scenario(rng, strategy=None, n_gc=None, feasible=True, features=None, ma
         vmax = max(p[1] for p in vt["charging_curve"])
         comp["charging_stations"][csid] = {
             "max_power": rng.choice([vmax, vmax, vmax / 2, vmax * 2, 11, 3.7]),
-            "min_power": rng.choice([0, 0, 0, 1.0]), "parent": g}
+            "min_power": 0, "parent": g}
+        csmax = comp["charging_stations"][csid]["max_power"]
+        comp["charging_stations"][csid]["min_power"] = rng.choice([0, 0, 0, 1.0, round(0.3 * csmax, 3), round(0.6 * csmax, 3)])
         # trips: alternate standing / driving
         t = start - datetime.timedelta(minutes=rng.choice([0, 0, interval, 3 * interval]))
         connected = rng.random() < 0.6
@@ -224,7 +226,7 @@ def gen_scenario(rng, strategy=None, n_gc=None, feasible=True, features=None, ma
                     "target": rng.choice([0, 0.2, 0.5, 0.8]) * rating, "window": rng.random() < 0.5})
     options = {}
     if rng.random() < 0.3:
-        options["CONCURRENCY"] = rng.choice([0.5, 0.8, 1.0])
+        options["CONCURRENCY"] = rng.choice([0.25, 0.5, 0.8, 1.0])
     if rng.random() < 0.3:
         options["PRICE_THRESHOLD"] = rng.choice([0.0, 0.1, 0.3])
     if not feasible or rng.random() < 0.2:
